@@ -474,6 +474,18 @@ func c04R7(c *Ctx, id string) {
 				c.check(fmt.Sprintf("%s:%s:overwrites-InBucket#%d", id, name, k), fn, in.Pos(), "a bucket header is overwritten as a whole only when opening a bucket or serialising it (init, openBucket, write, spill)", allowedVal[name], name+" overwrites a bucket header")
 			})
 		}
+		// a sequence update on a bucket without a materialised root first materialises it (otherwise spill skips the bucket and the update is lost)
+		rnF := c.P.lookupField(rootPkg, "Bucket", "rootNode")
+		for _, spec := range []struct{ fn, upd string }{{"bbolt.(*Bucket).SetSequence", "common.(*InBucket).SetInSequence"}, {"bbolt.(*Bucket).NextSequence", "common.(*InBucket).IncSequence"}} {
+			fn := c.fn(spec.fn)
+			upds := callsIn(fn, spec.upd)
+			ok := len(upds) == 1
+			if ok {
+				r := reach(nil, []*ssa.BasicBlock{fn.Blocks[0]}, func(in ssa.Instruction) bool { return isCallTo(in, "bbolt.(*Bucket).node") }, cutByEnv(map[*types.Var]bool{rnF: false}))
+				ok = !r[upds[0].(ssa.Instruction)]
+			}
+			c.check(id+":"+spec.fn+":materialise-before-update", fn, fn.Pos(), "with no materialised root node the bucket's root is materialised before the sequence changes, so the bucket is rewritten at commit", ok, "the sequence can change on a bucket that spill will skip")
+		}
 		// the sequence changes only through SetSequence / NextSequence
 		for _, spec := range []struct {
 			callee  string
